@@ -44,6 +44,7 @@ HOSTILE_FIXED = [
     "with space", "dash-ed", "dot.ted", "1leading", "123", "class", "def", "import", "None", "True", "match", "case", "type",
     "list", "dict", "str", "int", "id", "self", "Self", "datetime", "FooBAR", "fooBar", "foo_bar", "FOO", "éclair", "naïve", "日本", "ß",
     "_private", "__dunder__", "trailing_", "a  b", "a--b", "a..b", "x²", "٣", "a/b", "a+b", "a&b", "a:b", "a@b", "#hash",
+    "ｓｅｌｆ", "ｃｌｉｅｎｔ", "ｃｌａｓｓ", "ｉｄ", "ﬁeld", "ｔｙｐｅ", "Ｎｏｎｅ", "ｕｒｌ", "Ⅷ", "ℂount",
     "UPPER_CASE", "mixedCase_with-all.kinds", "Über", "ναί", "x" * 60, "a1b2", "kebab-case-name", "print", "object", "property",
 ]
 
@@ -101,3 +102,8 @@ def codepoint_samples(rng: random.Random, per_category: int = 3) -> list[str]:
 
 
 PATH_PARAM_SAFE = ["id", "user-id", "OwnerId", "item_id", "class", "type", "x", "_y", "A1", "from", "kebab-name", "snake_name", "client", "url", "list", "Id2"]
+
+
+def fullwidth(word: str) -> str:
+    """Compatibility (fullwidth) spelling: NFKC-normalises to `word`, is an identifier, is not ASCII."""
+    return "".join(chr(ord(c) + 0xFEE0) if "!" <= c <= "~" and c != "_" else c for c in word)
